@@ -12,6 +12,8 @@ import z3
 
 from symx.core import Inconclusive, SBool, SInt, cur, fresh_bool, fresh_int, is_sym, zb, zi
 
+from props import alias_common as _alias
+
 ID = "C18"
 GENS = ["gen_dfs", "gen_wilson", "gen_percolation", "gen_dfs_percolation", "gen_prim"]
 
@@ -449,6 +451,7 @@ def jobs(tier, seed):
     ids = _identity_configs()
     out += ids if not q else ids[::2]
     out.append(dict(h="crossproc", hashseeds=[1, 2] if q else [0, 1, 2, 12345], max_seconds=3300))
+    out.append(dict(_alias.ALIAS_JOB))  # results must not alias library state, arguments or each other (props/alias_common.py)
     out[0]["twin"] = True
     return out
 
@@ -459,6 +462,7 @@ HARNESSES = {
     "identity": dict(run=_run_identity, replay=_replay_identity, patch=dict(np_modules=[], stub_ascii=False)),
     "crossproc": dict(run=_run_crossproc, replay=_replay_crossproc, patch=dict(np_modules=[], stub_ascii=False)),
 }
+HARNESSES["alias"] = _alias.alias_harness("C18")
 
 META = dict(
     functions=["MazeDatasetConfig.serialize / load (field serialization and loading lambdas)", "_load_maze_ctor", "dataset._load_applied_filters", "GPTDatasetConfig.__post_init__",
@@ -476,3 +480,5 @@ META = dict(
     outside=["collision-freeness of sha256 / of the last five digits", "interpreter versions other than the one installed"],
     assumptions=["json_serialize passes int / bool leaves through unchanged (checked concretely by the replay through real JSON text)"],
 )
+
+META.setdefault("degenerate", {})["alias"] = _alias.ALIAS_META
